@@ -20,6 +20,12 @@
 //!
 //! `2 fam k l*` — `byte_len()` of a value of one of six `#[derive(MessageBody)]` types compiled in
 //!   (record `15 len`).
+//!
+//! `3 fam mode n*` — a value of the (fam % 19)-th of a family of std types (arrays, collections, maps,
+//!   options/results, boxes, tuples, net/time types, a derived struct with an array field) built from the
+//!   numbers n* with heterogeneous element lengths, stored with Body::new (even mode) or
+//!   Body::new_non_clonable (odd); record `16 byte_len Message::length channel_charge`
+//!   (coq/Body/StdLen.v `fam_value` / `std_byte_len`).
 use des::net::channel::{ChannelDropBehaviour, ChannelMetrics};
 use des::net::message::{Body, Message};
 use des::time::Duration;
@@ -102,6 +108,7 @@ fn run_line(nums: &[u64]) -> Vec<u64> {
         Some(0) => run_body(&nums[1..]),
         Some(1) => run_derive(&nums[1..]),
         Some(2) => run_family(&nums[1..]),
+        Some(3) => run_std(&nums[1..]),
         _ => vec![7],
     }
 }
@@ -936,4 +943,133 @@ fn run_family(nums: &[u64]) -> Vec<u64> {
     };
     // tagged, so that a length of 666 is not mistaken for the escaped-panic marker
     vec![15, len as u64]
+}
+
+// ------------------------------------------------------------------ std types, structural byte_len
+use std::collections::{BTreeMap, BTreeSet, BinaryHeap, HashMap, LinkedList, VecDeque};
+use std::net::{IpAddr, Ipv4Addr, Ipv6Addr, SocketAddr, SocketAddrV4, SocketAddrV6};
+
+#[derive(Debug, Clone, MessageBody)]
+struct DA {
+    arr: [String; 2],
+    tag: u16,
+    opt: Option<[u8; 3]>,
+}
+
+static STATIC_OPTS: [Option<u32>; 7] = [None, Some(1), Some(2), None, Some(4), None, Some(6)];
+
+/// bytes a channel charges for the message: busy time at 8 Gbit/s is one nanosecond per byte
+fn channel_charge(m: &Message) -> u64 {
+    let mlen = m.length() as u64;
+    if mlen < (1 << 41) {
+        ChannelMetrics::new(8_000_000_000, Duration::ZERO, Duration::ZERO, ChannelDropBehaviour::Drop)
+            .calculate_busy(m)
+            .as_nanos() as u64
+    } else {
+        mlen
+    }
+}
+
+fn std_record<T: MessageBody + Clone + Debug + Any>(value: T, mode: u64) -> Vec<u64> {
+    let blen = value.byte_len() as u64;
+    let msg = if mode % 2 == 0 {
+        Message::default().with_content(value)
+    } else {
+        let mut m = Message::default();
+        m.set_content_non_clonable(value);
+        m
+    };
+    vec![16, blen, msg.length() as u64, channel_charge(&msg)]
+}
+
+fn run_std(nums: &[u64]) -> Vec<u64> {
+    if nums.len() < 2 {
+        return vec![7];
+    }
+    let (fam, mode, ns) = (nums[0] % 19, nums[1], &nums[2..]);
+    let l = |i: usize| ns.get(i).copied().unwrap_or(0);
+    let s = |n: u64| "x".repeat((n % 50) as usize);
+    let odd = |n: u64| n % 2 == 1;
+    let letters = |i: usize, n: u64| ((b'a' + i as u8) as char).to_string().repeat(n as usize);
+    match fam {
+        0 => std_record::<[String; 3]>([s(l(0)), s(l(1)), s(l(2))], mode),
+        1 => std_record::<[Option<u32>; 4]>(std::array::from_fn(|i| odd(l(i)).then_some(i as u32)), mode),
+        2 => std_record::<Vec<String>>((0..(l(0) % 5) as usize).map(|i| s(l(1 + i))).collect(), mode),
+        3 => std_record::<VecDeque<Option<u16>>>(
+            (0..(l(0) % 6) as usize).map(|i| odd(l(1 + i)).then_some(i as u16)).collect(),
+            mode,
+        ),
+        4 => std_record::<(u8, String)>((3, s(l(0))), mode),
+        5 => std_record::<Option<Vec<u16>>>(odd(l(0)).then(|| vec![7u16; (l(1) % 9) as usize]), mode),
+        6 => std_record::<Result<u32, String>>(if l(0) % 2 == 0 { Ok(5) } else { Err(s(l(1))) }, mode),
+        7 => std_record::<Box<[Option<u64>; 2]>>(Box::new([odd(l(0)).then_some(1), odd(l(1)).then_some(2)]), mode),
+        8 => std_record::<DA>(
+            DA { arr: [s(l(0)), s(l(1))], tag: 9, opt: odd(l(2)).then_some([1, 2, 3]) },
+            mode,
+        ),
+        9 => std_record::<LinkedList<(u16, Option<String>)>>(
+            (0..(l(0) % 4) as usize).map(|i| (i as u16, odd(l(1 + 2 * i)).then(|| s(l(2 + 2 * i))))).collect(),
+            mode,
+        ),
+        10 => std_record::<HashMap<u8, String>>(
+            (0..(l(0) % 5) as usize).map(|i| (i as u8, s(l(1 + i)))).collect(),
+            mode,
+        ),
+        11 => std_record::<BTreeMap<String, Option<u32>>>(
+            (0..(l(0) % 4) as usize)
+                .map(|i| (letters(i, 1 + l(1 + 2 * i) % 5), odd(l(2 + 2 * i)).then_some(i as u32)))
+                .collect(),
+            mode,
+        ),
+        12 => std_record::<BTreeSet<String>>(
+            (0..(l(0) % 5) as usize).map(|i| letters(i, 1 + l(1 + i) % 6)).collect(),
+            mode,
+        ),
+        13 => std_record::<BinaryHeap<Option<u8>>>(
+            (0..(l(0) % 6) as usize).map(|i| odd(l(1 + i)).then_some(i as u8)).collect(),
+            mode,
+        ),
+        14 => {
+            let a = ((l(0) % 8) as usize).min(7);
+            let b = (a + (l(1) % 8) as usize).min(7);
+            std_record::<&'static [Option<u32>]>(&STATIC_OPTS[a..b], mode)
+        }
+        15 => std_record::<(
+            (u8, u16, u32, u64, u128, bool, char, f64, (), i8),
+            (usize, isize, i16, i32, i64, i128, f32),
+            Option<char>,
+        )>(
+            ((1, 2, 3, 4, 5, true, 'c', 1.5, (), -1), (1, -1, -2, -3, -4, -5, 2.5), odd(l(0)).then_some('z')),
+            mode,
+        ),
+        16 => {
+            let v4 = Ipv4Addr::new(10, 0, 0, 1);
+            let v6 = Ipv6Addr::LOCALHOST;
+            let s4 = SocketAddrV4::new(v4, 80);
+            let s6 = SocketAddrV6::new(v6, 80, 0, 0);
+            let ip = if l(0) % 2 == 0 { IpAddr::V4(v4) } else { IpAddr::V6(v6) };
+            let sock = if l(1) % 2 == 0 { SocketAddr::V4(s4) } else { SocketAddr::V6(s6) };
+            std_record::<(IpAddr, SocketAddr, Ipv4Addr, Ipv6Addr, SocketAddrV4, SocketAddrV6, Duration, des::time::SimTime)>(
+                (ip, sock, v4, v6, s4, s6, Duration::from_secs(3), des::time::SimTime::from_duration(Duration::from_secs(4))),
+                mode,
+            )
+        }
+        17 => std_record::<Vec<[Option<String>; 2]>>(
+            (0..(l(0) % 4) as usize)
+                .map(|i| {
+                    let e = |n: u64| (n % 3 != 0).then(|| s(n));
+                    [e(l(1 + 2 * i)), e(l(2 + 2 * i))]
+                })
+                .collect(),
+            mode,
+        ),
+        _ => std_record::<Box<Result<Option<String>, [u16; 3]>>>(
+            Box::new(match l(0) % 3 {
+                0 => Ok(None),
+                1 => Ok(Some(s(l(1)))),
+                _ => Err([1, 2, 3]),
+            }),
+            mode,
+        ),
+    }
 }
